@@ -25,6 +25,7 @@ import warnings
 import numpy as np
 
 from .. import build
+from .. import res_helpers as H
 from ..engine import R, HarnessError
 
 ID = "C19"
@@ -59,7 +60,11 @@ BOUNDS = {
               "tof_wavelength_arrays": "increasing / decreasing / two-valued over 2..12 A and 5..6 A, n in (5, 20), "
                                        "both grid kinds, all ranges and acceptances",
               "signs": "linearity with a combination that is negative over part of q, apply(-f), differences of two "
-                       "Gaussians, negative scale through DirectModel and Gxi"},
+                       "Gaussians, negative scale through DirectModel and Gxi",
+              "storage_order": "ascending / descending / rotated (cyclic shift n//3) / interleaved (two banks): transforms "
+                               "with n in (5, 20), both kinds, the first two ranges, wavelength 5 / tof-increasing(2..12), "
+                               "acceptance pi/2 and 0.1; DirectModel and Gxi with guinier on "
+                               "linspace(200, 4000, 20|21)"},
     "thorough": {"n": [1, 2, 3, 5, 10, 20, 50, 77, 100, 150, 199, 200], "kinds": ["linear", "log"], "ranges_A": RANGES,
                  "wavelength_A": LAMBDAS, "acceptance_rad": ACCEPT,
                  "gaussian_s_A": "10, 30, 100, 300, 1000, 3000, 10000, 30000 (x seed factor) and sums of two neighbours",
@@ -68,7 +73,8 @@ BOUNDS = {
                  "tof_wavelength_arrays": "increasing / decreasing / two-valued over 2..12 A and 5..6 A, n in (2, 5, 20, 50, "
                                           "77), both grid kinds, all ranges and acceptances",
                  "signs": "linearity with a combination that is negative over part of q, apply(-f), differences of two "
-                          "Gaussians, negative scale through DirectModel and Gxi"},
+                          "Gaussians, negative scale through DirectModel and Gxi",
+                 "storage_order": "as quick with n in (3, 5, 20, 50, 77), all ranges, also tof-two-valued(5..6)"},
 }
 CASE_TIMEOUT = 900
 # time-of-flight data: one wavelength per spin-echo length.  (pattern, shortest, longest)
@@ -85,7 +91,7 @@ def _preload():
 
 
 def setup(ctx):
-    bad = build.prebuild(ctx, ["sphere"])
+    bad = build.prebuild(ctx, ["sphere", "guinier"])
     if bad:
         raise HarnessError("models failed to build: %r" % bad)
     # pristine process for the history cases: every sequence of transforms starts from never-used module state
@@ -169,6 +175,25 @@ def cases(ctx):
                         out.append({"kind": "transform", "n": n, "grid": kind, "range": rng,
                                     "lam": {"tof": pat, "shortest": l0, "longest": l1}, "acc": acc,
                                     "s": svals, "nxi_quad": 3 if ctx.quick else 5})
+    # storage order of the spin-echo lengths (per-point wavelengths travel with their points): the same set stored
+    # descending / rotated / interleaved, at the transform level ...
+    for n in ([5, 20] if ctx.quick else [3, 5, 20, 50, 77]):
+        for kind in ("linear", "log"):
+            for rng in (RANGES[:2] if ctx.quick else RANGES):
+                for lam in ((5.0, {"tof": "increasing", "shortest": 2.0, "longest": 12.0}) if ctx.quick else
+                            (5.0, {"tof": "increasing", "shortest": 2.0, "longest": 12.0},
+                             {"tof": "two-valued", "shortest": 5.0, "longest": 6.0})):
+                    for acc in ACCEPT[:2]:
+                        for order in H.distinct_orders(n):
+                            out.append({"kind": "transform", "n": n, "grid": kind, "range": rng, "lam": lam, "acc": acc,
+                                        "s": svals, "nxi_quad": 3 if ctx.quick else 5, "order": order})
+    # ... and through DirectModel / Gxi with a Gaussian model (guinier), where the analytic value of every point is known
+    sg = 1500.0 * (1.0 if ctx.seed == 0 else 1.0 + 0.01 * (ctx.seed % 8))
+    for order in H.ORDERS:
+        for lam in (5.0, {"tof": "increasing", "shortest": 2.0, "longest": 3.0}):
+            for n in (20, 21):
+                out.append({"kind": "direct-order", "order": order, "lam": lam, "n": n, "s": sg})
+    out.append({"kind": "gxi-order", "s": sg, "n": 20})
     for lam in LAMBDAS:
         out.append({"kind": "direct", "lam": lam, "acc": math.pi / 2, "radius": 150.0 * (1.0 if ctx.seed == 0 else ctx.factor(1))})
     out.append({"kind": "gxi", "radius": 150.0 * (1.0 if ctx.seed == 0 else ctx.factor(1))})
@@ -453,16 +478,167 @@ def judge_transform(r, J, T, xi, lam, acc, svals, nxi_quad, tag=""):
     return results
 
 
-def run_transform(case, ctx, r):
-    xi = xi_grid(case["n"], case["grid"], case["range"])
-    acc = case["acc"]
-    lam = wavelengths(case["lam"], len(xi))
-    fk = {"wavelength": lam_name(case["lam"]), "acceptance": round(acc, 4)}
-    desc = ("_make_sesans_transform(empty_sesans(xi=%s(%g..%g A, n=%d), wavelength=%s, zacceptance=(%.6g, 'radians')))"
-            % (case["grid"], xi[0], xi[-1], len(xi), lam_name(case["lam"]) if isinstance(case["lam"], dict) else "%g" % lam, acc))
+def _short(v):
+    v = [float(x) for x in v]
+    return "[%s]" % ", ".join("%g" % x for x in v) if len(v) <= 6 else "[%g, %g, %g, ..., %g]" % (v[0], v[1], v[2], v[-1])
+
+
+def _order_equivariance(r, J, T, xi, xi_a, lam_a, acc, perm, svals, order):
+    """
+    storage order at the transform level: the value at a spin-echo length must not depend on where it is stored.
+    The calculated q range is derived from the stored first, second and last lengths, so q_calc may legitimately
+    differ between the orders; then the two values are compared through the stated quadrature accuracy (both within
+    REL_TOL of the exact Gaussian pair, hence within 2 REL_TOL of each other) for every Gaussian whose 1/s lies well
+    inside BOTH calculated ranges and inside the acceptance.  With identical q_calc they must agree to rounding.
+    """
+    Ta = make_transform(xi_a, lam_a, acc)
+    q, qa = np.asarray(T.q_calc, float), np.asarray(Ta.q_calc, float)
+    same = q.shape == qa.shape and np.array_equal(q, qa)
+    lamv = np.full(len(xi_a), float(lam_a)) if np.isscalar(lam_a) else np.asarray(lam_a, float)
+    q_acc = 2 * math.pi / float(np.max(lamv)) * math.sin(acc)
+    n_cmp = 0
+    for s in svals:
+        ok = all(20 * g[0] < 1.0 / s < g[-1] / 20 for g in (q, qa)) and 60.0 / s <= q_acc
+        if not (ok or same):
+            continue
+        got = _apply(T, gauss(q, s))
+        want = _apply(Ta, gauss(qa, s))[perm]
+        tolv = 1e-11 / (2 * math.pi * s * s) if same else 2 * REL_TOL / (2 * math.pi * s * s)
+        if got.shape != want.shape or np.any(~(np.abs(got - want) <= tolv)):
+            k = int(np.nanargmax(np.abs(got - want))) if got.shape == want.shape else 0
+            J.bad("storage-order", "gauss(s=%r): stored point %d (xi=%r) gives %.12g; the same point in the set stored ascending "
+                  "gives %.12g (exact %.12g, tolerance %.3g, q_calc %s)"
+                  % (s, k, xi[k], got[k] if got.shape == want.shape else float("nan"), want[k], float(exact_gauss(xi[k], s)),
+                     tolv, "identical" if same else "differs: %g..%g vs %g..%g" % (q[0], q[-1], qa[0], qa[-1])), what="value")
+        n_cmp += 1
+    r.ok(nt=n_cmp > 0, outcome="order-equivariance:%s" % ("same-q" if same else "other-q"), trans=2,
+         branches=["order:" + order] + (["order:compared"] if n_cmp else []) + (["order:same-q_calc"] if same else []))
+
+
+def run_direct_order(case, ctx, r):
+    """DirectModel on SESANS data stored in a given order, Gaussian model (guinier: s^2 = 2 rg^2 / 3)"""
+    from sasmodels.data import empty_sesans
+    from sasmodels.direct_model import DirectModel, call_kernel
+    model = build.model("guinier")
+    n, s, order = case["n"], case["s"], case["order"]
+    xi_a = np.linspace(200.0, 4000.0, n)
+    lam_a = wavelengths(case["lam"], n)
+    perm = H.order_perm(order, n)
+    xi = xi_a[perm]
+    lam = lam_a if np.isscalar(lam_a) else lam_a[perm]
+    fk = {"wavelength": lam_name(case["lam"]), "via": "DirectModel", "order": order}
+    desc = ("DirectModel(empty_sesans(xi=linspace(200, 4000, %d) stored %s %s, wavelength=%s), guinier)(rg=%r)"
+            % (n, order, _short(xi), lam_name(case["lam"]), s * math.sqrt(1.5)))
     J = Judge(r, fk, desc)
-    T = make_transform(xi, lam, acc)
+    pars = {"rg": s * math.sqrt(1.5), "scale": 1.0, "background": 0.0}
+
+    def evaluate(x, l):
+        data = empty_sesans(np.array(x, float), wavelength=l if np.isscalar(l) else np.array(l, float))
+        with warnings.catch_warnings():
+            warnings.simplefilter("ignore")
+            with np.errstate(all="ignore"):
+                calc = DirectModel(data, model, cutoff=0.0)
+                val = np.array(calc(**pars), float)
+                T = calc.resolution
+                q = np.asarray(T.q_calc, float)
+                Iq = np.asarray(call_kernel(model.make_kernel([q]), pars), float)
+        return val, T, q, Iq
+    try:
+        val, T, q, Iq = evaluate(xi, lam)
+    except Exception as exc:  # noqa
+        J.bad("storage-order", "raised %s: %s (the same spin-echo lengths stored ascending evaluate)"
+              % (type(exc).__name__, exc), what="raises")
+        r.ok(nt=True, outcome="order-raises", branches=["order:" + order, "direct-order"])
+        return
+    tolv = REL_TOL / (2 * math.pi * s * s)
+    in_range = 20 * q[0] < 1.0 / s < q[-1] / 20
+    ref = _apply(T, Iq)
+    if val.shape != (n,) or not np.array_equal(val, ref):
+        k = int(np.argmax(val != ref)) if val.shape == ref.shape else 0
+        J.bad("apply", "value of stored point %d (xi=%r) is %r but resolution.apply(I(q_calc))[%d] = %r"
+              % (k, xi[k], val[k] if val.shape == ref.shape else val.shape, k, ref[k]))
+    elif in_range:
+        ex = exact_gauss(xi, s)
+        if np.any(~(np.abs(val - ex) <= tolv)):
+            k = int(np.nanargmax(np.abs(val - ex)))
+            J.bad("storage-order" if order != "ascending" else "gaussian",
+                  "stored point %d (xi=%r) gives %.12g, its Hankel value (exp(-xi^2/2s^2)-1)/(2 pi s^2) is %.12g (tolerance %.3g)"
+                  % (k, xi[k], val[k], ex[k], tolv), what="value")
+        r.branch("direct-order:analytic")
+    if order != "ascending":
+        va, Ta, qa, _ = evaluate(xi_a, lam_a)
+        if 20 * qa[0] < 1.0 / s < qa[-1] / 20 and in_range and val.shape == (n,):
+            if np.any(~(np.abs(val - va[perm]) <= 2 * tolv)):
+                k = int(np.nanargmax(np.abs(val - va[perm])))
+                J.bad("storage-order", "stored point %d (xi=%r) gives %.12g; the same point in the data set stored ascending gives "
+                      "%.12g" % (k, xi[k], val[k], va[perm][k]), what="value")
+            r.branch("order:compared")
+    r.ok(nt=True, n=n, trans=2, outcome="direct-order", branches=["order:" + order, "direct-order"])
+
+
+def run_gxi_order(case, ctx, r):
+    """direct_model.Gxi with a list of spin-echo lengths stored in every order of the menu (serial: Gxi builds its model)"""
+    from sasmodels.direct_model import Gxi
+    n, s = case["n"], case["s"]
+    xi_a = np.linspace(200.0, 4000.0, n)
+    tolv = REL_TOL / (2 * math.pi * s * s)
+    for order in H.ORDERS:
+        perm = H.order_perm(order, n)
+        xi = xi_a[perm]
+        fk = {"via": "Gxi", "order": order}
+        desc = "Gxi('guinier', linspace(200, 4000, %d) stored %s %s, rg=%r)" % (n, order, _short(xi), s * math.sqrt(1.5))
+        J = Judge(r, fk, desc)
+        try:
+            with warnings.catch_warnings():
+                warnings.simplefilter("ignore")
+                with np.errstate(all="ignore"):
+                    val = np.asarray(Gxi("guinier", [float(v) for v in xi], rg=s * math.sqrt(1.5), background=0.0), float)
+                    q = np.asarray(make_transform(xi, 5.0, math.pi / 2).q_calc, float)
+        except Exception as exc:  # noqa
+            J.bad("storage-order", "raised %s: %s (the same spin-echo lengths stored ascending evaluate)"
+                  % (type(exc).__name__, exc), what="raises")
+            r.ok(nt=True, outcome="order-raises", branches=["order:" + order, "gxi-order"])
+            continue
+        if 20 * q[0] < 1.0 / s < q[-1] / 20:
+            ex = exact_gauss(xi, s)
+            # Gxi builds a single-precision kernel by default: 1e-6 relative on I(q) on top of the quadrature accuracy
+            if val.shape != ex.shape or np.any(~(np.abs(val - ex) <= tolv + 1e-5 * np.abs(ex))):
+                k = int(np.nanargmax(np.abs(val - ex))) if val.shape == ex.shape else 0
+                J.bad("storage-order" if order != "ascending" else "gaussian",
+                      "stored point %d (xi=%r) gives %r, its Hankel value is %.12g (tolerance %.3g)"
+                      % (k, xi[k], val[k] if val.shape == ex.shape else val.shape, ex[k], tolv), what="value")
+            r.branch("order:compared")
+        r.ok(nt=True, n=n, trans=1, outcome="gxi-order", branches=["order:" + order, "gxi-order"])
+
+
+def run_transform(case, ctx, r):
+    xi_a = xi_grid(case["n"], case["grid"], case["range"])
+    acc = case["acc"]
+    lam_a = wavelengths(case["lam"], len(xi_a))
+    order = case.get("order")
+    perm = H.order_perm(order, len(xi_a)) if order else np.arange(len(xi_a))
+    xi = xi_a[perm]
+    lam = lam_a if np.isscalar(lam_a) else lam_a[perm]           # wavelengths travel with their points
+    fk = {"wavelength": lam_name(case["lam"]), "acceptance": round(acc, 4)}
+    if order:
+        fk["order"] = order
+    desc = ("_make_sesans_transform(empty_sesans(xi=%s(%g..%g A, n=%d)%s, wavelength=%s, zacceptance=(%.6g, 'radians')))"
+            % (case["grid"], xi_a[0], xi_a[-1], len(xi), " stored %s %s" % (order, _short(xi)) if order else "",
+               lam_name(case["lam"]) if isinstance(case["lam"], dict) else "%g" % lam_a, acc))
+    J = Judge(r, fk, desc)
+    if order:
+        try:
+            T = make_transform(xi, lam, acc)
+        except Exception as exc:  # noqa - "for every set of spin-echo lengths"
+            J.bad("storage-order", "raised %s: %s (the same spin-echo lengths stored ascending construct)"
+                  % (type(exc).__name__, exc), what="raises")
+            r.ok(nt=True, outcome="order-raises", branches=["order:" + order])
+            return
+    else:
+        T = make_transform(xi, lam, acc)
     res = judge_transform(r, J, T, xi, lam, acc, case["s"], case["nxi_quad"])
+    if order:
+        _order_equivariance(r, J, T, xi, xi_a, lam_a, acc, perm, case["s"], order)
     r.branch("n=%d" % case["n"])
     # ---- single point versus the same point inside the larger set
     if len(xi) >= 5:
@@ -567,6 +743,10 @@ def run_case(case, ctx):
         run_gxi(case, ctx, r)
     elif kind == "hist":
         run_hist(case, ctx, r)
+    elif kind == "direct-order":
+        run_direct_order(case, ctx, r)
+    elif kind == "gxi-order":
+        run_gxi_order(case, ctx, r)
     else:
         raise HarnessError("unknown case kind %r" % kind)
     return r
@@ -583,6 +763,11 @@ def finish(ctx, report):
     report.require("direct", 3, "DirectModel path")
     report.require("gxi", 1, "Gxi path")
     report.require("history", 100, "sequences of transforms in one process")
+    for o in H.ORDERS[1:]:
+        report.require("order:" + o, 30, "the same spin-echo lengths stored in another order")
+    report.require("order:compared", 20, "values compared between storage orders / with the analytic value of the stored point")
+    report.require("direct-order", 12, "DirectModel on every storage order")
+    report.require("gxi-order", 3, "Gxi on every storage order")
     report.require("tof", 100, "transforms with a per-point wavelength array")
     # (no guard on "impulse:tof-split": with one cut at 2pi/max(lambda) sin(theta) <= 2pi/lambda_i the per-point
     #  reachability limit never lies below the acceptance cut, so every impulse is accepted or rejected for all points)
